@@ -19,6 +19,9 @@ For every line
   points `p0 + Σ k q` of that grid are wrapped by the specification (`wrapR`, `inRangeB`) and every image must be a
   member of the real result (`memB`, `C05.memB_iff`).  A lost image: `MISMATCH` (with the point and the image).
 * a real `add_grid_generator` exception on a legal call is reported as `THROWS`.
+* `variants=`: which of the four variants of the model (`Repairs`: the repairs of KF-C17-12 / KF-C17-13 present or not;
+  `kf12+kf13` = `gridWrapAssign`, the function as it is now; `beforefix` = before both repairs) have exactly the real
+  outcome; `DIVERGE` = none of them.  The check requires `kf12+kf13` on every run.
 Verdicts: `ok <id> k=v…`, `DIVERGE <id> …`, `MISMATCH <id> …`, `THROWS <id> …`, `skip <id> <reason>`.
 -/
 open PPLV.Lattice PPLV.Wrap PPLV.Wrap.GW
@@ -179,6 +182,12 @@ def judgeLine (line : String) : Option String :=
           | none => some s!"skip {id} bad-argument-generators"
           | some G =>
             let model := gridWrapAssign n cfg G
+            -- the four variants of the function (repairs of KF-C17-12 / KF-C17-13): which of them explain the real outcome
+            let variants : List (String × Outcome) :=
+              [("beforefix", gridWrapAssignV ⟨false, false⟩ n cfg G), ("kf12", gridWrapAssignV ⟨true, false⟩ n cfg G),
+               ("kf13", gridWrapAssignV ⟨false, true⟩ n cfg G), ("kf12+kf13", model)]
+            let explain (same : Outcome → Bool) : String :=
+              ",".intercalate ((variants.filter fun v => same v.2).map (·.1))
             let nvars := normVars vars
             let mm := rangeOf cfg.r cfg.w
             let tags : String :=
@@ -192,16 +201,17 @@ def judgeLine (line : String) : Option String :=
             match part "X" with
             | some (cls :: meth :: _) =>
               if meth == "wrap_assign" then
-                if model == .dimensionIncompatible then some s!"ok {id} out=dim flawed=0 pts=0 imgs=0 tags={tags}"
+                if model == .dimensionIncompatible then some s!"ok {id} out=dim variants=beforefix,kf12,kf13,kf12+kf13 flawed=0 pts=0 imgs=0 tags={tags}"
                 else some s!"DIVERGE {id} real=dimension_incompatible model={showOutcome model}"
               else if meth == "add_grid_generator" then
-                match model, (part "L").bind (parseGens n) with
-                | .invalidGenerator l, some L =>
-                  if equivB l L then
+                match (part "L").bind (parseGens n) with
+                | some L =>
+                  let ex := explain fun o => match o with | .invalidGenerator l => equivB l L | _ => false
+                  if ex != "" then
                     let GI := intersectCons G (vars.map fun x => { a := unit x, b := 0, f := 1 })
-                    some s!"THROWS {id} method=add_grid_generator left={showGrid L} integerpoints={if GI.isEmpty then 0 else 1} tags={tags}"
+                    some s!"THROWS {id} method=add_grid_generator left={showGrid L} integerpoints={if GI.isEmpty then 0 else 1} variants={ex} tags={tags}"
                   else some s!"DIVERGE {id} real=invalid_generator:left={showGrid L} model={showOutcome model}"
-                | _, _ => some s!"DIVERGE {id} real=invalid_generator model={showOutcome model}"
+                | none => some s!"DIVERGE {id} real=invalid_generator model={showOutcome model}"
               else some s!"DIVERGE {id} real=exception:{cls}:{meth} model={showOutcome model}"
             | some _ => some s!"skip {id} bad-exception-part"
             | none =>
@@ -209,13 +219,13 @@ def judgeLine (line : String) : Option String :=
               | none => some s!"skip {id} no-result"
               | some R =>
                 let st := judgeReal cfg nvars G R
-                let same : Bool := match model with | .ok M => equivB M R | _ => false
+                let ex := explain fun o => match o with | .ok M => equivB M R | _ => false
                 match st.lost with
                 | some (p, i) =>
-                  some s!"MISMATCH {id} lost-image point={showVec p} image={showVec i} result={showGrid R} modeleq={if same then 1 else 0} flawed={fl} tags={tags}"
+                  some s!"MISMATCH {id} lost-image point={showVec p} image={showVec i} result={showGrid R} modeleq={if ex != "" then 1 else 0} variants={ex} flawed={fl} tags={tags}"
                 | none =>
-                  if !same then some s!"DIVERGE {id} real=ok:{showGrid R} model={showOutcome model} tags={tags}"
-                  else some s!"ok {id} out=ok flawed={fl} pts={st.pts} imgs={st.imgs} resempty={if R.isEmpty then 1 else 0} tags={tags}"
+                  if ex == "" then some s!"DIVERGE {id} real=ok:{showGrid R} model={showOutcome model} tags={tags}"
+                  else some s!"ok {id} out=ok variants={ex} flawed={fl} pts={st.pts} imgs={st.imgs} resempty={if R.isEmpty then 1 else 0} tags={tags}"
       | _ => some s!"skip {id} parse"
     | some _ => some s!"skip {id} parse"
   | _ => none
